@@ -37,6 +37,7 @@ def producing_call(e):
 
 
 def check(ctx):
+    disconnect_text(ctx)
     R = "C03/pipeline"
     L = Listen(ctx, R)
     if not L.ok:
@@ -433,6 +434,29 @@ def locale_chain(ctx):
     ctx.check(tmpl, R, "C03/locale-chain/template-by-key", lb.loc,
               reason="the returned text is not table[candidate].get(key) with parameters substituted",
               detail="text = messages[candidate][key] with replace(param_key, param_val)")
+
+
+def disconnect_text(ctx):
+    """the localized message reaches the client as it is: write_text_component treats a message as JSON only when it starts
+    with '{' (a JSON text component object); any other text — including one that starts with '[' — is sent as a plain string tag"""
+    R = "C03/disconnect-text"
+    wb = ctx.body(r"^passage_packets::writer::\{impl#0\}::write_text_component::\{closure#0\}$", rule=R)
+    if wb is None:
+        return
+    an = ctx.an(wb)
+    sw = calls(wb, ("str::starts_with", "starts_with"))
+    chars = []
+    for bb, t in sw:
+        pat = flow.strip(arg(an, bb, t, 1))
+        consts = find_all(pat, lambda y: y[0] == "const")
+        for c in consts:
+            chars.append(c[2])
+    parses = calls(wb, ("serde_json::from_str", "from_str"))
+    ctx.check(len(sw) >= 1 and sorted(set(map(str, chars))) == ["{"] and len(parses) == 1, R, "C03/disconnect-text/json-only-for-objects", wb.loc,
+              reason="write_text_component routes messages starting with %s to the JSON parser (parse calls: %d); only a message that starts with '{' is a "
+                     "JSON text component — a plain message such as \"[Lobby] no server available\" would fail to parse and no Disconnect would be sent"
+                     % (sorted(set(map(str, chars))), len(parses)),
+              detail="JSON parsing only for messages starting with '{'; everything else is a string tag")
 
 
 def _separators_last_first(e):
